@@ -330,17 +330,14 @@ class Check:
             e = self.known[k]
             log("KNOWN-FINDING: property=%s %s (%d traces; e.g. %s)" % (
                 self.pid, e["f"]["what"], e["n"], json.dumps(e["example"], sort_keys=True)[:200]))
-        shown = 0
-        seen = set()
+        groups = {}
         for sig, path in self.violations:
-            k = json.dumps({x: sig[x] for x in sig if x in ("clause", "class")}, sort_keys=True)
-            if k in seen and shown >= 5:
-                continue
-            seen.add(k)
-            shown += 1
-            log("VIOLATION property=%s replay=%s  %s" % (self.pid, path, json.dumps(sig, sort_keys=True)[:400]))
-            if shown >= 20:
-                break
+            k = json.dumps({x: sig[x] for x in sig if x in ("clause", "class", "strategy", "active", "passive", "plugin", "kind")}, sort_keys=True)
+            groups.setdefault(k, []).append((sig, path))
+        for k in sorted(groups)[:40]:
+            sig, path = groups[k][0]
+            log("VIOLATION property=%s replay=%s  (%d traces) %s" % (self.pid, path, len(groups[k]), json.dumps(sig, sort_keys=True)[:400]))
+        self.cov["violation_classes"] = {k: len(v) for k, v in groups.items()}
         log("%s %s: %s  (states=%d transitions=%d traces=%d cases=%d/%d known=%d drift=%d, %.1fs)" % (
             self.pid, self.tier, "VIOLATED" if self.violations else "held",
             self.cov["states"], self.cov["transitions"], self.cov["traces_validated_against_impl"],
